@@ -8,6 +8,8 @@ pub struct Stdin {
     stdin: io::Stdin,
     /// Command must be stored somewhere to be referenced.
     buffer: String,
+    /// Byte which was read while decoding an invalid UTF-8 sequence, but is not part of it.
+    unread: Option<u8>,
 }
 
 impl Stdin {
@@ -15,16 +17,29 @@ impl Stdin {
         Self {
             stdin,
             buffer: String::with_capacity(INITIAL_BUFFER_CAPACITY),
+            unread: None,
         }
     }
 
     /// `None` indicates EOF.
+    ///
+    /// Input which is not valid UTF-8 is read as U+FFFD (which no command accepts), rather than
+    /// aborting the session.
     fn read_char(&mut self) -> Option<char> {
-        read_char_from_bytes(|| self.read_byte()).expect("uh oh")
+        match read_char_from_bytes(|| self.read_byte()) {
+            Ok(ch) => ch,
+            Err(unread) => {
+                self.unread = unread;
+                Some(char::REPLACEMENT_CHARACTER)
+            }
+        }
     }
 
     /// `None` indicates EOF.
     fn read_byte(&mut self) -> Option<u8> {
+        if let Some(byte) = self.unread.take() {
+            return Some(byte);
+        }
         let mut buf = [0; 1];
         let bytes_read = self
             .stdin
@@ -37,7 +52,9 @@ impl Stdin {
     }
 }
 
-fn read_char_from_bytes<F>(mut next_byte: F) -> Result<Option<char>, ()>
+/// `Err` indicates an invalid UTF-8 sequence. It contains the byte which ended the sequence early,
+/// if that byte may start a character of its own.
+fn read_char_from_bytes<F>(mut next_byte: F) -> Result<Option<char>, Option<u8>>
 where
     F: FnMut() -> Option<u8>,
 {
@@ -50,25 +67,25 @@ where
 
     let utf8_position = Utf8Position::from(byte);
     let Some(utf8_len) = utf8_position.len() else {
-        return Err(());
+        return Err(None);
     };
 
     #[allow(clippy::needless_range_loop)]
     for i in 1..utf8_len {
         let Some(byte) = next_byte() else {
-            return Err(());
+            return Err(None);
         };
         if !Utf8Position::from(byte).is_continuation() {
-            return Err(());
+            return Err(Some(byte));
         }
         bytes[i] = byte;
     }
 
-    let string = std::str::from_utf8(&bytes[0..utf8_len]).map_err(|_| ())?;
+    let string = std::str::from_utf8(&bytes[0..utf8_len]).map_err(|_| None)?;
     let mut chars = string.chars();
-    let ch = chars.next().ok_or(())?;
+    let ch = chars.next().ok_or(None)?;
     if chars.next().is_some() {
-        return Err(());
+        return Err(None);
     }
     Ok(Some(ch))
 }
